@@ -35,7 +35,11 @@ CHECKS["C07"] = dict(
          "size leaving the object closed, nested contexts share the key without touching the file, and the invariant 'key present "
          "iff a context is open, and then 32 bytes' for every reachable state of every properly nested history with external file "
          "changes (induction over histories), hence no encrypt/decrypt ever runs with anything but 32 bytes. Correspondence: "
-         "random histories on the real KeyFile (exception class, file bytes, private key/refcount after every op) vs the model.",
+         "random histories on the real KeyFile (exception class, file bytes, private key/refcount after every op) vs the model; empty plaintexts "
+         "outside a context; files that spell 32 bytes in hex / base64."
+         " Continuation (Props/C07b.lean): after any properly nested history (failed opens, contexts left by exceptions, other objects, "
+         "external file changes) a closed object holds nothing and its next session uses the key file as it is then — verbatim, refused, "
+         "or created (next_session_*), so a replaced key file is respected (rotation_respected, rotation_after_failed_open).",
     note="Model hand-written, tied by differential histories. File system abstracted to one path (absent / bytes / not creatable); "
          "randomness of the generated key not modelled; __exit__ without __enter__ is outside the property.",
     technique="Lean 4 proof (invariant by induction over operation histories) + model/implementation correspondence",
